@@ -184,7 +184,7 @@ impl NodeStream {
                 (format!("{} v={ver} ip={ip} ro={ro} q {}", addr_s(&to), render_request(&r2)), Some(format!("{}/{}/{}", addr_s(&to), kind, target)))
             }
             MessageType::Response(r) => (format!("{} t={} v={ver} ip={ip} ro={ro} r {}", addr_s(&to), m.transaction_id(), render_response(r)), None),
-            MessageType::Error(e) => (format!("{} t={} v={ver} ip={ip} ro={ro} e {} {}", addr_s(&to), m.transaction_id(), e.code, hexz(e.description.as_bytes())), None),
+            MessageType::Error(e) => (format!("{} t={} v={ver} ip={ip} ro={ro} e {}", addr_s(&to), m.transaction_id(), e.code), None),
         }
     }
 
@@ -422,8 +422,16 @@ impl NodeStream {
             return None;
         }
         let rx = verif::snapshot_via(dht);
-        self.step_node(None, out);
-        rx.try_recv().ok()
+        // the actor picks up one message per iteration: API calls queued earlier come first
+        for _ in 0..256 {
+            if !self.step_node(None, out) {
+                return None;
+            }
+            if let Ok(s) = rx.try_recv() {
+                return Some(s);
+            }
+        }
+        None
     }
 
     pub fn render_snapshot(s: &Snapshot) -> String {
@@ -435,19 +443,31 @@ impl NodeStream {
             v.join(",")
         };
         format!(
-            "iter=[{}] puts=[{}] putsenders=[{}] getsenders=[{}] live={} cache=[{}] stats={}/{}/{} sstats={}/{}/{} mode={}{} fw={} pub={} rt=[{}] srt=[{}]",
+            "iter=[{}] puts=[{}] putsenders=[{}] getsenders=[{}] live={} raw={} cap={} to={} cache=[{}] stats={}/{}/{}/{:x}/{:x} sstats={}/{}/{}/{:x}/{:x} mode={}{} fw={} pub={} rt=[{}] srt=[{}]",
             ids(&s.iterative_queries),
             ids(&s.put_queries),
             cnt(&s.put_senders),
             cnt(&s.get_senders),
             s.inflight_live,
-            s.cache_kinds.iter().map(|(i, (k, _, _, sub, n))| format!("{}:{}:{}:{}", hex(i.as_bytes()), k, sub, n)).collect::<Vec<_>>().join(","),
+            s.inflight_raw,
+            s.inflight_capacity,
+            s.request_timeout_ns,
+            {
+                // lookups that finish in the same tick are cached in `HashMap` order: sort
+                let mut v: Vec<String> = s.cache_kinds.iter().map(|(i, (k, _, _, sub, n))| format!("{}:{}:{}:{}", hex(i.as_bytes()), k, sub, n)).collect();
+                v.sort();
+                v.join(",")
+            },
             s.stats.0,
             s.stats.2,
             s.stats.4,
+            s.stats.1.to_bits() >> 12,
+            s.stats.3.to_bits() >> 12,
             s.signed_stats.0,
             s.signed_stats.2,
             s.signed_stats.4,
+            s.signed_stats.1.to_bits() >> 12,
+            s.signed_stats.3.to_bits() >> 12,
             if s.server_mode { "s" } else { "c" },
             if s.socket_server_mode { "s" } else { "c" },
             s.firewalled as u8,
@@ -564,13 +584,15 @@ impl NodeStream {
         if !pending.is_empty() {
             out.violation("C06", "call-hangs", format!("all requests expired and the node was idle for a minute, but these calls have not returned: {}", pending.join(" ; ")));
         }
-        if !s.iterative_queries.is_empty() || !s.put_queries.is_empty() {
+        // a node whose routing table is empty keeps retrying its bootstrap lookup: not a leak
+        let retrying = s.routing_table.is_empty() && s.iterative_queries.iter().all(|t| *t == s.id);
+        if (!s.iterative_queries.is_empty() && !retrying) || !s.put_queries.is_empty() {
             out.violation("C20", "query-leak", format!("at quiescence {} lookups and {} puts are still registered", s.iterative_queries.len(), s.put_queries.len()));
         }
         if !s.put_senders.is_empty() || !s.get_senders.is_empty() {
             out.violation("C20", "caller-leak", format!("at quiescence {} put callers and {} get callers are still parked", s.put_senders.len(), s.get_senders.len()));
         }
-        if s.inflight_live != 0 {
+        if s.inflight_live != 0 && !(retrying && !s.iterative_queries.is_empty()) {
             out.violation("C20", "inflight-leak", format!("at quiescence {} requests are still in flight", s.inflight_live));
         }
     }
@@ -701,6 +723,24 @@ impl Stream for NodeStream {
             "adv" => {
                 verif::advance(Duration::from_nanos(t[1].parse().expect("ns")));
                 verif::now_ns().to_string()
+            }
+            // debugging aid (not generated): the retained in-flight requests, through a snapshot
+            "dbgreqs" => match self.snapshot(out) {
+                Some(s) => {
+                    let now = verif::now_ns();
+                    format!("cap={} reqs={:?}", s.inflight_capacity, s.inflight.iter().map(|(t, a, at)| (*t, a.ip().octets()[3], (now - at) / 1_000_000)).collect::<Vec<_>>())
+                }
+                None => "dead".into(),
+            },
+            // know <k> <msg> <sig>: tells the model that this Ed25519 signature verifies (checked here)
+            "know" => {
+                let ok = (|| {
+                    let k: [u8; 32] = unhex(t[1]).try_into().ok()?;
+                    let sig: [u8; 64] = unhex(t[3]).try_into().ok()?;
+                    let key = ed25519_dalek::VerifyingKey::from_bytes(&k).ok()?;
+                    key.verify_strict(&unhex(t[2]), &ed25519_dalek::Signature::from_bytes(&sig)).ok()
+                })();
+                if ok.is_some() { "ok".into() } else { "invalid".into() }
             }
             // `quiet` is `snap` plus the assertion that the node is quiescent (C06, C20)
             "snap" | "quiet" => match self.snapshot(out) {
@@ -1017,6 +1057,64 @@ pub struct InFlight {
     pub seq: u64,
 }
 
+fn signable_mut(seq: i64, v: &[u8], salt: Option<&[u8]>) -> Vec<u8> {
+    let mut s = vec![];
+    if let Some(salt) = salt {
+        s.extend(format!("4:salt{}:", salt.len()).into_bytes());
+        s.extend_from_slice(salt);
+    }
+    s.extend(format!("3:seqi{}e1:v{}:", seq, v.len()).into_bytes());
+    s.extend_from_slice(v);
+    s
+}
+
+/// `know` ops for every signature in the datagram that really verifies (the model's verification
+/// oracle is the set of registered triples)
+pub fn known_signatures(f: &InFlight) -> Vec<String> {
+    let mut out = vec![];
+    let mut check = |k: &[u8; 32], msg: Vec<u8>, sig: &[u8; 64]| {
+        if let Ok(key) = ed25519_dalek::VerifyingKey::from_bytes(k) {
+            if key.verify_strict(&msg, &ed25519_dalek::Signature::from_bytes(sig)).is_ok() {
+                out.push(format!("know {} {} {}", hex(k), hexz(&msg), hex(sig)));
+            }
+        }
+    };
+    let salts: [Option<&[u8]>; 5] = [None, Some(b"salt"), Some(b"s"), Some(b"another"), Some(b"")];
+    match &f.mt {
+        MessageType::Response(ResponseSpecific::GetMutable(a)) => {
+            for salt in salts {
+                check(&a.k, signable_mut(a.seq, &a.v, salt), &a.sig);
+            }
+        }
+        MessageType::Response(ResponseSpecific::GetSignedPeers(a)) => {
+            // the info hash is the target of the request this answers
+            if let Some(t) = f.re.as_ref().and_then(|k| k.rsplit('/').next()) {
+                let ih = unhex(t);
+                for (k, ts, sig) in a.peers.iter() {
+                    let mut m = ih.clone();
+                    m.extend_from_slice(&ts.to_be_bytes());
+                    check(k, m, sig);
+                }
+            }
+        }
+        MessageType::Request(r) => {
+            if let RequestTypeSpecific::Put(p) = &r.request_type {
+                match &p.put_request_type {
+                    PutRequestSpecific::PutMutable(a) => check(&a.k, signable_mut(a.seq, &a.v, a.salt.as_deref()), &a.sig),
+                    PutRequestSpecific::AnnounceSignedPeer(a) => {
+                        let mut m = a.info_hash.as_bytes().to_vec();
+                        m.extend_from_slice(&a.t.to_be_bytes());
+                        check(&a.k, m, &a.sig);
+                    }
+                    _ => {}
+                }
+            }
+        }
+        _ => {}
+    }
+    out
+}
+
 pub fn step_line(f: &InFlight) -> String {
     let m = Msg::new(0, Some([82, 83, 0, 6]), f.ip, f.mt.clone(), f.ro);
     let bytes = m.to_bytes().expect("enc");
@@ -1040,11 +1138,12 @@ pub struct Driver<'a> {
     pub late_pct: u64,
     /// datagrams the node sends to its own address come back (it is publicly reachable)
     pub reachable: bool,
+    pub known: std::collections::HashSet<String>,
 }
 
 impl<'a> Driver<'a> {
     pub fn new(out: &'a mut Out, seed: u64, net: VNet) -> Self {
-        Driver { s: NodeStream::new(), out, rng: Rng::new(seed), net, queue: vec![], latency: 5 * MS, seq: 0, next_call: 0, drop_pct: 0, dup_pct: 0, late_pct: 0, reachable: false }
+        Driver { s: NodeStream::new(), out, rng: Rng::new(seed), net, queue: vec![], latency: 5 * MS, seq: 0, next_call: 0, drop_pct: 0, dup_pct: 0, late_pct: 0, reachable: false, known: Default::default() }
     }
     /// a peer sends a request to the node
     pub fn inject_request(&mut self, from: SocketAddrV4, requester: Id, rt: RequestTypeSpecific, ro: bool) {
@@ -1055,6 +1154,7 @@ impl<'a> Driver<'a> {
         let b = if boot.is_empty() { "-".to_string() } else { boot.iter().map(addr_s).collect::<Vec<_>>().join(",") };
         let p = public.map(|ip| u32::from(ip).to_string()).unwrap_or("-".into());
         self.queue.clear();
+        self.known.clear();
         self.next_call = 0;
         self.out.begin(&mut self.s, &format!("node mode={mode} boot={b} pub={p} seed={seed} t0={t0}"));
         self.run("init".into());
@@ -1105,6 +1205,11 @@ impl<'a> Driver<'a> {
         self.queue.sort_by_key(|f| (f.due, f.seq));
         if let Some(pos) = self.queue.iter().position(|f| f.due <= now) {
             let f = self.queue.remove(pos);
+            for k in known_signatures(&f) {
+                if self.known.insert(k.clone()) {
+                    self.run(k);
+                }
+            }
             let line = step_line(&f);
             self.run(line);
         } else {
